@@ -49,10 +49,16 @@ func init() {
 			obs := c.SNBTSuffix()
 			obs = append(obs, c.SNBTLiteralWidths()...)
 			obs = append(obs, filterObs(c.TagDispatch("nbt"), func(o core.Ob) bool { return strings.Contains(o.Key, "StringifiedMessage") })...)
-			in := func(fn *ssa.Function) bool {
+			// scope: what the exported text entry points reach inside package nbt (call graph, not names)
+			var rootNames []string
+			for _, fn := range c.Funcs() {
 				n := core.FnName(fn)
-				return inPkgs(fn, "nbt") && (strings.Contains(n, "StringifiedMessage") || strings.Contains(n, "snbt") || strings.Contains(n, "write") || strings.Contains(n, "parseLiteral") || strings.Contains(n, "RawMessage).String"))
+				if inPkgs(fn, "nbt") && fn.Parent() == nil && fn.Object() != nil && fn.Object().Exported() &&
+					(recvTypeName(n) == "StringifiedMessage" || n == "nbt.(RawMessage).String") {
+					rootNames = append(rootNames, n)
+				}
 			}
+			in := c.reachPred(rootNames, "nbt")
 			var roots []*ssa.Function
 			for _, r := range c.DecoderRoots() {
 				n := core.FnName(r)
